@@ -1092,10 +1092,12 @@ impl Property for Wakeups {
                         break 'files;
                     }
                     // level 0 is below the threshold, nobody else runs: the ingest must complete
-                    if !wait_until(|| a.is_finished(), Duration::from_secs(3)) {
+                    // (a woken thread needs microseconds; the generous limit only guards against a
+                    // machine so loaded that a runnable thread is not scheduled for seconds)
+                    if !wait_until(|| a.is_finished(), Duration::from_secs(12)) {
                         let still_parked = verif::PARKED.load(Ordering::SeqCst) > parked0;
                         if still_parked && !tree.verif_should_stall() {
-                            o.fail("wakeup:ingest-not-woken", format!("an ingest parked on the write stall is still parked 3 s after the compaction that brought level 0 below the stall threshold was applied, and no other store thread exists (stall threshold {} files)", c.stall_files));
+                            o.fail("wakeup:ingest-not-woken", format!("an ingest parked on the write stall is still parked 12 s after the compaction that brought level 0 below the stall threshold was applied, and no other store thread exists (stall threshold {} files)", c.stall_files));
                         } else {
                             o.inconclusive = true;
                         }
@@ -1187,9 +1189,9 @@ impl Property for Wakeups {
                     if l0 >= c.mandatory_files.max(1) as usize {
                         // the ingest itself counts as one progress event; the compaction thread
                         // must add another
-                        if !wait_until(|| verif::PROGRESS.load(Ordering::SeqCst) > before + 1, Duration::from_secs(3)) {
+                        if !wait_until(|| verif::PROGRESS.load(Ordering::SeqCst) > before + 1, Duration::from_secs(12)) {
                             if verif::PARKED.load(Ordering::SeqCst) > parked0 && tree.verif_levels()[0].len() >= c.mandatory_files.max(1) as usize {
-                                o.fail("wakeup:compaction-not-woken", format!("the compaction thread is still parked 3 s after an ingest brought level 0 to {} files (mandatory threshold {}), and no other store thread exists", l0, c.mandatory_files));
+                                o.fail("wakeup:compaction-not-woken", format!("the compaction thread is still parked 12 s after an ingest brought level 0 to {} files (mandatory threshold {}), and no other store thread exists", l0, c.mandatory_files));
                             } else {
                                 o.inconclusive = true;
                             }
